@@ -190,6 +190,12 @@ func c10Scenario(r *vf.Run, t *testing.T, id string, rng *rand.Rand, cat []c10Of
 	nBefore := rng.Intn(7)
 	nAfter := rng.Intn(7)
 	trailing := rng.Intn(4) // 0 silent, 1 flood, 2 stops reading + flood, 3 disconnect
+	// bigParked: the parked handlers answer with more than the windows hold and the connection window is left at its initial
+	// 65535, so the promised responses are still blocked on flow control when the offence has long been answered; the peer
+	// then opens the stream windows and, last, the connection window. readTimeout: the server has a ReadTimeout and the
+	// peer leaves the requests it never completed alone: the server gives them up itself.
+	bigParked := rng.Intn(6) == 0 && !idle && !preStall && (trailing == 0 || trailing == 1)
+	withReadTimeout := rng.Intn(6) == 0 && !idle
 	states := make([]int, nBefore)
 	for i := range states {
 		states[i] = rng.Intn(3) // 0 answered, 1 parked, 2 incomplete (no END_STREAM yet)
@@ -204,7 +210,7 @@ func c10Scenario(r *vf.Run, t *testing.T, id string, rng *rand.Rand, cat []c10Of
 		}
 	}
 	var triggers []string
-	replay := map[string]any{"offence": off.Name, "offence_on_high_idle_id": highOffenceID, "peer_stopped_reading_before": preStall, "idle_timeout_instead": idle, "before": states, "after": nAfter, "trailing": trailing}
+	replay := map[string]any{"offence": off.Name, "offence_on_high_idle_id": highOffenceID, "peer_stopped_reading_before": preStall, "idle_timeout_instead": idle, "before": states, "after": nAfter, "trailing": trailing, "big_parked_responses": bigParked, "server_read_timeout": withReadTimeout}
 	failed := false
 	fail := func(rule, detail string) {
 		if !failed {
@@ -224,8 +230,13 @@ func c10Scenario(r *vf.Run, t *testing.T, id string, rng *rand.Rand, cat []c10Of
 		if idle {
 			so.IdleTimeout = 5 * time.Second
 		}
+		if withReadTimeout {
+			so.ReadTimeout = 4 * time.Second
+		}
 		e := rt.NewServerEnv(id, so)
-		e.P.Write(rt.WindowUpdate(0, 1<<30))
+		if !bigParked {
+			e.P.Write(rt.WindowUpdate(0, 1<<30))
+		}
 		next := uint32(1)
 		var openIncomplete uint32
 		incomplete := map[uint32]bool{}
@@ -242,7 +253,11 @@ func c10Scenario(r *vf.Run, t *testing.T, id string, rng *rand.Rand, cat []c10Of
 				g := e.H.NewGate()
 				parked = append(parked, g)
 				parkedIDs[next] = true
-				e.H.SetPlan(tag, &rt.RespPlan{Status: 200, Body: []byte("late"), Gate: g})
+				body := []byte("late")
+				if bigParked {
+					body = make([]byte, 70000+rng.Intn(100000))
+				}
+				e.H.SetPlan(tag, &rt.RespPlan{Status: 200, Body: body, Gate: g})
 				e.P.Write(rt.Concat(rt.HeaderFrames(next, blk, nil, -1, nil, true)))
 			case 2:
 				e.P.Write(rt.Concat(rt.HeaderFrames(next, blk, nil, -1, nil, false)))
@@ -329,6 +344,9 @@ func c10Scenario(r *vf.Run, t *testing.T, id string, rng *rand.Rand, cat []c10Of
 		if trailing != 3 {
 			var more []byte
 			for sid := uint32(1); sid < next; sid += 2 {
+				if incomplete[sid] && withReadTimeout {
+					continue // the server's own ReadTimeout ends it
+				}
 				if incomplete[sid] {
 					if rng.Intn(2) == 0 {
 						more = append(more, rt.RstStream(sid, 8)...)
@@ -349,6 +367,18 @@ func c10Scenario(r *vf.Run, t *testing.T, id string, rng *rand.Rand, cat []c10Of
 			rt.Open(g)
 		}
 		rt.Wait()
+		if bigParked {
+			// the promised responses are waiting for window: the streams first, the connection last
+			var out []byte
+			for sid := range parkedIDs {
+				out = append(out, rt.WindowUpdate(sid, 1<<20)...)
+			}
+			e.P.Write(out)
+			rt.Wait()
+			e.P.Write(rt.WindowUpdate(0, 1<<30))
+			rt.Wait()
+			r.Inc("promised_responses_finished_by_a_connection_window_update", int64(len(parkedIDs)))
+		}
 		time.Sleep(15 * time.Second)
 		rt.Wait()
 		returned := e.Served()
@@ -401,7 +431,7 @@ func c10Scenario(r *vf.Run, t *testing.T, id string, rng *rand.Rand, cat []c10Of
 	})
 	c01Outcome(r, id, res, triggers, replay, "C10")
 	r.Mark("offences", off.Name)
-	r.Eval(vf.Hash(off.Name, idle, states, nAfter, trailing, highOffenceID, preStall), true)
+	r.Eval(vf.Hash(off.Name, idle, states, nAfter, trailing, highOffenceID, preStall, bigParked, withReadTimeout), true)
 	if r.WantSample() {
 		r.Sample(replay)
 	}
